@@ -94,6 +94,11 @@ Inductive check :=
 
 Definition vraise : result benv := Raise ValueError.
 
+(* failure of check_shape_any: its message is built from shapes[-2], so with EXACTLY ONE shape every failure is an
+   IndexError ("tuple index out of range") instead of the intended exception (no caller in polliwog passes one shape) *)
+Definition any_fail (ps : list pattern) (e : exn) : result benv :=
+  match ps with [_] => Raise IndexError | _ => Raise e end.
+
 Definition size_of (s : shape) : nat := fold_right Nat.mul 1%nat s.
 
 Definition columnize_pattern (p : pattern) (s : shape) : pattern :=
@@ -113,10 +118,10 @@ Fixpoint run_check (c : check) (args : aenv) (b : benv) : result benv :=
         match args a with
         | AArr s => match first_match b ps s with
                     | Some p => Ok (bind b bd (wild_value b p s))
-                    | None => vraise
+                    | None => any_fail ps ValueError
                     end
-        | ANone => vraise
-        | _ => Raise AttributeError       (* the error message is built from arr.shape *)
+        | ANone => any_fail ps ValueError
+        | _ => any_fail ps AttributeError   (* the error message is built from arr.shape *)
         end
       end
   | Columnize a p =>
@@ -278,3 +283,175 @@ Definition run_effective (cs : contracts) (name : string) (b0 : benv) (ds : list
   | Ok _ => run_delegates cs ds args
   | Raise e => Raise e
   end.
+
+(* ---- documented forms (the SPECIFICATION side: hand-written from the docstrings in tools/api_registry.py) ------ *)
+(* a documented dimension is an int or a length symbol shared between arguments ("k"); minimum sizes such as
+   "at least one point" are value checks, not shape checks, and are not part of a form *)
+Inductive fdim := FInt (n : nat) | FSym (x : string).
+Inductive fshape := FNone | FNumber | FArr (ds : list fdim).
+Definition form := list (string * fshape).
+
+Fixpoint match_fdims (env : benv) (ds : list fdim) (s : shape) : option benv :=
+  match ds, s with
+  | [], [] => Some env
+  | FInt m :: ds', n :: s' => if Nat.eqb n m then match_fdims env ds' s' else None
+  | FSym x :: ds', n :: s' =>
+      match lookup env x with
+      | Some m => if Nat.eqb n m then match_fdims env ds' s' else None
+      | None => match_fdims ((x, Some n) :: env) ds' s'
+      end
+  | _, _ => None
+  end.
+
+Definition match_fshape (env : benv) (f : fshape) (v : argv) : option benv :=
+  match f, v with
+  | FNone, ANone => Some env
+  | FNumber, ANumber => Some env
+  | FArr ds, AArr s => match_fdims env ds s
+  | _, _ => None
+  end.
+
+Fixpoint match_form (env : benv) (f : form) (args : aenv) : bool :=
+  match f with
+  | [] => true
+  | (a, fs) :: r => match match_fshape env fs (args a) with Some env' => match_form env' r args | None => false end
+  end.
+
+Definition in_forms (b0 : benv) (fs : list form) (args : aenv) : bool := existsb (fun f => match_form b0 f args) fs.
+
+Definition accepts_effective (cs : contracts) (deleg : list (string * list delegate)) (b0 : benv) (name : string)
+  (args : aenv) : bool :=
+  match run_effective cs name b0 (match assoc deleg name with Some ds => ds | None => [] end) args with
+  | Ok _ => true
+  | Raise _ => false
+  end.
+
+(* the finite universe over which "accepts exactly the documented forms" is decided by computation: every argument
+   ranges over None, a Python number and the listed array shapes (fewer for callables with many arguments) *)
+Definition shapes_large : list shape :=
+  [[]; [1]; [2]; [3]; [4]; [0; 3]; [1; 3]; [2; 3]; [3; 3]; [2; 4]; [3; 4]; [2; 2]; [4; 4]; [3; 1]; [6]; [1; 1; 3];
+   [2; 3; 3]; [3; 3; 3]; [2; 2; 3]; [1; 3; 3]; [2; 3; 1]; [1; 2; 3]].
+Definition shapes_medium : list shape := [[]; [3]; [4]; [2]; [1; 3]; [2; 3]; [3; 3]; [2; 4]; [3; 1]; [2; 3; 3]].
+Definition shapes_small : list shape := [[]; [3]; [2]; [2; 3]; [3; 3]; [4; 3]; [2; 3; 1]].
+Definition universe (arity : nat) : list argv :=
+  ANone :: ANumber :: map AArr (if Nat.leb arity 3 then shapes_large else if Nat.leb arity 4 then shapes_medium else shapes_small).
+
+Fixpoint tuples (names : list string) (u : list argv) : list (list (string * argv)) :=
+  match names with
+  | [] => [[]]
+  | a :: r => flat_map (fun t => map (fun v => (a, v) :: t) u) (tuples r u)
+  end.
+
+(* the same acceptance with the table lookups done once (what forms_agree evaluates) *)
+Definition resolved := (list check * list (list check * list (string * source)))%type.
+Definition resolve (cs : contracts) (deleg : list (string * list delegate)) (name : string) : resolved :=
+  (contract_of cs name,
+   map (fun d => (contract_of cs (callee d), wiring d)) (match assoc deleg name with Some ds => ds | None => [] end)).
+Fixpoint accepts_delegates (ds : list (list check * list (string * source))) (args : aenv) : bool :=
+  match ds with
+  | [] => true
+  | (c, w) :: r => match run_contract c (wire w args) with Ok _ => accepts_delegates r args | Raise _ => false end
+  end.
+Definition accepts_resolved (r : resolved) (b0 : benv) (args : aenv) : bool :=
+  match run_contract_from (fst r) args b0 with Ok _ => accepts_delegates (snd r) args | Raise _ => false end.
+
+Definition forms_agree (cs : contracts) (deleg : list (string * list delegate)) (b0 : benv) (name : string)
+  (names : list string) (fs : list form) : bool :=
+  let r := resolve cs deleg name in
+  forallb (fun t => Bool.eqb (accepts_resolved r b0 (env_of t)) (in_forms b0 fs (env_of t)))
+          (tuples names (universe (List.length names))).
+
+(* ==== specification vocabulary used by the statements in props/C20.v (declarative readings; the proofs that the
+   executable interpreter above agrees with them are in proofs/P_shape.v) ============================================ *)
+Definition dim_ok (b : benv) (d : dim) (n : nat) : Prop :=
+  match d with
+  | DInt m => n = m
+  | DAny => True
+  | DVar x => lookup b x = Some n
+  | DVarOrAny x => lookup b x = Some n \/ lookup b x = None
+  end.
+
+
+(* "argument a is an array whose shape matches one of the patterns ps under bindings b" *)
+Definition matches_one_of (b : benv) (args : aenv) (a : string) (ps : list pattern) : Prop :=
+  exists s, args a = AArr s /\ exists p, In p ps /\ match_pattern b p s = true.
+
+Fixpoint check_holds (c : check) (args : aenv) (b : benv) : Prop :=
+  match c with
+  | Check a p _ => matches_one_of b args a [p]
+  | CheckAny a ps _ => matches_one_of b args a ps
+  | Columnize a p =>
+      match p with
+      | [_] => args a = ANumber \/ matches_one_of b args a [p]
+      | _ => exists s, args a = AArr s /\ match_pattern b (columnize_pattern p s) s = true
+      end
+  | CheckFlat a p =>
+      (exists s, args a = AArr s /\ match_pattern b p [size_of s] = true) \/
+      (args a = ANumber /\ match_pattern b p [1%nat] = true)
+  | CheckSame a other => exists s, args other = AArr s /\ args a = AArr s
+  | CheckEach a p =>
+      (exists ss, args a = ASeq ss /\ forall s, In s ss -> match_pattern b p s = true) \/
+      (exists n s, args a = AArr (n :: s) /\ (n = 0%nat \/ match_pattern b p s = true))
+  | NeedsShape a => exists s, args a = AArr s
+  | IfPresent a c' => args a = ANone \/ check_holds c' args b
+  end.
+
+(* the bindings after a successful check *)
+Fixpoint bindings_after (c : check) (args : aenv) (b : benv) : benv :=
+  match c with
+  | Check a p bd =>
+      match args a with AArr s => bind b bd (wild_value b p s) | _ => b end
+  | CheckAny a ps bd =>
+      match args a with
+      | AArr s => match first_match b ps s with Some p => bind b bd (wild_value b p s) | None => b end
+      | _ => b
+      end
+  | IfPresent a c' => match args a with ANone => b | _ => bindings_after c' args b end
+  | _ => b
+  end.
+
+
+Fixpoint contract_holds (cs : list check) (args : aenv) (b : benv) : Prop :=
+  match cs with
+  | [] => True
+  | c :: r => check_holds c args b /\ contract_holds r args (bindings_after c args b)
+  end.
+
+Fixpoint final_bindings (cs : list check) (args : aenv) (b : benv) : benv :=
+  match cs with
+  | [] => b
+  | c :: r => final_bindings r args (bindings_after c args b)
+  end.
+
+
+Definition is_arr (v : argv) : bool := match v with AArr _ => true | _ => false end.
+Fixpoint kind_ok (args : aenv) (c : check) : bool :=
+  match c with
+  | Check _ _ _ => true
+  | CheckAny a ps _ => match ps with
+                       | [] => true
+                       | [_] => false     (* a one-shape check_shape_any fails with IndexError: outside this lemma *)
+                       | _ => match args a with AArr _ | ANone => true | _ => false end
+                       end
+  | Columnize a p => match p with [_] => true | _ => is_arr (args a) end
+  | CheckFlat _ _ => true
+  | CheckSame _ other => is_arr (args other)
+  | CheckEach a _ => match args a with ASeq _ | AArr (_ :: _) => true | _ => false end
+  | NeedsShape a => is_arr (args a)
+  | IfPresent a c' => match args a with ANone => true | _ => kind_ok args c' end
+  end.
+
+
+Definition mem (x : string) (l : list string) : bool := existsb (String.eqb x) l.
+
+(* every documented array argument of `name` is constrained by a check of its effective contract *)
+Definition covered (cs : contracts) (deleg : list (string * list delegate)) (name : string) (arg : string) : bool :=
+  mem arg (checked_args (contract_of cs name)) ||
+  existsb (fun d : delegate =>
+             existsb (fun w : string * source =>
+                        match snd w with
+                        | FromArg y => String.eqb y arg && mem (fst w) (checked_args (contract_of cs (callee d)))
+                        | Const _ => false
+                        end) (wiring d))
+          (match assoc deleg name with Some ds => ds | None => [] end).
+
